@@ -87,6 +87,8 @@ class Ctx:
         self._fails = []
         self._nontrivial = False
         self.recording = record
+        if os.environ.get('VERIF_JOURNAL_CASES'):
+            journal({'case': case})          # crash isolation: the driver reads this if the shard dies
         try:
             self.prop.check_case(case, self)
         except BaseException as e:  # noqa: BLE001
